@@ -42,6 +42,10 @@ func Run(c *hx.Ctx) {
 			runLS(c, genLS(c))
 		}
 	}
+	if only == "" || only == "h2ga" {
+		initEnv()
+		runH2GoAway(c)
+	}
 	if only == "" || only == "up" {
 		// boundary replayed on every run: inherited bytes that fill the new read buffer exactly (minimised past failure)
 		runUP(c, upCase{half: 64, idle: 1, wait: 0, h1: 0})
